@@ -175,7 +175,18 @@ CHECKS = {
         'c21_cvoigt, c_norm, isotropic_c, is_isotropic_c vs the executable model; oracle on the real code.',
    note=TB + 'numpy.linalg.eigh / solve are external routines whose specifications are checked on their outputs every run.',
    technique='Lean 4 proof (case analysis with nlinarith for the Hudson bounds, arctan/arccos identities) + differential correspondence',
-   design='5/C14'),
+   design='5/C14'), 'C16': dict(
+   text='Theorems about the pool as a labelled transition system, for EVERY interleaving of submissions, worker takes/finishes, collections, '
+        'cleaning and closing, any number of workers and tasks: invariant "every submitted id is in exactly one of queued / running / result '
+        'queue / handed to the caller / skipped status code, ids unique, number_jobs = outstanding" (exactly once); when nothing is outstanding '
+        'the caller holds precisely the non-code results; a raising task still delivers its result; no deadlock while results are outstanding '
+        '(a progress step is enabled or a dead worker can be replaced); a measure strictly decreases on every progress step and on replacing '
+        'dead workers (collection terminates); closing ends every worker. Tie: trace validation - queue put/get of all processes of real '
+        'JobPool runs (1..16 workers, raising / status-code tasks, interleaved result() calls) are logged, merged and replayed through the '
+        'model step function; results, number_jobs and liveness compared. Hangs detected by timeout.',
+   note=TB + 'multiprocessing.Queue is assumed reliable (modelled as a bag); CPython multiprocessing and OS scheduling are covered only by the validated traces.',
+   technique='Lean 4 proof (inductive invariant + variant of a transition system) + trace validation of real runs',
+   design='5/C16'),
 }
 
 NOT_YET = 'check under construction in this session (model/theorems not yet committed)'
